@@ -79,6 +79,25 @@ def child_main(args) -> int:
     t0 = time.time()
     kernel.connect_hooks()
     status = "ok"
+    debug_logging = args.shard % 4 == 3 or os.environ.get("VERIF_DEBUG_LOGGING") == "1"
+    if debug_logging and os.environ.get("VERIF_DEBUG_LOGGING") != "0":
+        # a process setting, not an input: every fourth shard runs y0 with DEBUG logging switched on and a handler
+        # that formats each record (lazy %-arguments get evaluated) and throws it away - results must not depend on it
+        import logging
+
+        class _Sink(logging.Handler):
+            def emit(self, record):
+                try:
+                    record.getMessage()
+                except Exception as e:  # noqa: BLE001
+                    kernel.count(f"logging:format-error:{type(e).__name__}")
+                kernel.LOG.counters["logging:debug-records-formatted"] += 1
+
+        lg = logging.getLogger("y0")
+        lg.setLevel(logging.DEBUG)
+        lg.addHandler(_Sink())
+        lg.propagate = False
+        kernel.count("logging:debug-enabled-shards")
     try:
         mod.run_shard(ctx)
     except Exception as e:  # noqa: BLE001
